@@ -945,6 +945,11 @@ func c03Reader(c *fw.Ctx) fw.Outcome {
 			return fw.Bad(key, string(doc), "TTML reader (frameRate=%d tickRate=%d), rendering {%s}: %s", model.FrameRate, model.TickRate, o, msg)
 		}
 		c.Feature(fmt.Sprintf("read indent=%q elem=%q tts=%v br=%d brInSpan=%v bare=%v", o.indent, o.elemPrefix, o.attrPrefix, o.brKind, o.brInSpan, o.bareText))
+		if c.Idx%4 == 3 {
+			if msg := altEntryPoints(c, "ttml", doc, got, nil); msg != "" {
+				return fw.Bad(key, string(doc), "%s", msg)
+			}
+		}
 		c.Count("reader_documents", 1)
 	}
 	for _, cu := range model.Cues {
@@ -981,6 +986,11 @@ func c03Writer(c *fw.Ctx) fw.Outcome {
 		}
 	}); p != "" || err != nil {
 		return fw.Bad(fw.HashString(ttmlDenote(model)), nil, "writer failed: %v %s", err, p)
+	}
+	if indent == "default" {
+		if msg := altWrite(c, "ttml", sub, b.Bytes()); msg != "" {
+			return fw.Bad(fw.HashBytes(b.Bytes()), b.String(), "%s", msg)
+		}
 	}
 	doc := b.Bytes()
 	key := fw.HashBytes(doc)
